@@ -6,6 +6,8 @@
 # Observed: sources deep-equal to the snapshot, same row objects in the same order, no emitted row is a source row object.
 import copy
 import io
+import resource
+import signal
 import rbql
 from rbql import rbql_engine as E
 from rbql import rbql_csv as C
@@ -43,7 +45,36 @@ class IdCSVWriter(C.CSVWriter):
         return C.CSVWriter.write(self, fields)
 
 
+# a defect that makes a query loop for ever (e.g. a helper appending to the list it iterates) must end as a failing case, not as
+# a hung driver: address-space limit + per-case alarm (both surface as an exception inside the query)
+try:
+    resource.setrlimit(resource.RLIMIT_AS, (3 << 30, 3 << 30))
+except (ValueError, OSError):
+    pass
+
+
+class CaseTimeout(BaseException):
+    pass
+
+
+def _alarm(_sig, _frm):
+    raise CaseTimeout()
+
+
+signal.signal(signal.SIGALRM, _alarm)
+
+
 def run_case(c):
+    signal.alarm(10)
+    try:
+        return run_case_inner(c)
+    except CaseTimeout:
+        return {'sources_ok': False, 'alias': False, 'error': ['TIMEOUT', 0, None], 'emitted': 0}
+    finally:
+        signal.alarm(0)
+
+
+def run_case_inner(c):
     A = [list(r) for r in c['A']]
     B = None if c.get('B') is None else [list(r) for r in c['B']]
     snapA, snapB = copy.deepcopy(A), copy.deepcopy(B)
